@@ -57,6 +57,17 @@ M = [
  ("C10__privkey_not_copied", "secec/secec.go", "return newPrivateKeyFromScalar(secp256k1.NewScalarFrom(s))", "return newPrivateKeyFromScalar(s)"),
  ("C10__reduced_key_accepted", "secec/secec.go", "\tif didReduce != 0 {\n\t\treturn nil, errInvalidPrivateKey\n\t}", "\tif didReduce > 1 {\n\t\treturn nil, errInvalidPrivateKey\n\t}"),
  ("C10__identity_pubkey", "secec/secec.go", "\tif pt.IsIdentity() != 0 {\n\t\treturn nil, errAIsInfinity\n\t}", "\tif pt.IsIdentity() > 1 {\n\t\treturn nil, errAIsInfinity\n\t}"),
+  ("C08__s_formula_sign", "secec/ecdsa.go", "s.Multiply(r, d.scalar).Add(s, e).Multiply(s, kInv)", "s.Multiply(r, d.scalar).Subtract(s, e).Multiply(s, kInv)"),
+ ("C08__recid_not_flipped", "secec/ecdsa.go", "\trecoveryID ^= byte(negateS)\n", "\trecoveryID ^= byte(negateS) & 0\n"),
+ ("C08__recid_bits_swapped", "secec/ecdsa.go", "recoveryID = (byte(didReduce) << 1) | byte(rYIsOdd)", "recoveryID = (byte(rYIsOdd) << 1) | byte(didReduce)"),
+ ("C08__lows_skipped", "secec/ecdsa.go", "\ts.ConditionalNegate(s, negateS)\n\trecoveryID", "\ts.ConditionalNegate(s, negateS&0)\n\trecoveryID"),
+ ("C08__r_zero_not_retried", "secec/ecdsa.go", "\t\tif r.IsZero() != 0 {\n\t\t\t// This is essentially", "\t\tif r.IsZero() > 1 {\n\t\t\t// This is essentially"),
+ ("C08__selfverify_swapped_args", "secec/ecdsa.go", "if err = verify(k, nil, digest, r, s); err != nil {", "if err = verify(k, nil, digest, s, r); err != nil {"),
+ ("C08__invalid_encoding_signed", "secec/ecdsa.go", "\t\t// \"Why, yes, this is after SignRaw. Don't do that then.\"\n\t\treturn nil, errInvalidEncoding", "\t\tsig = BuildCompactSignature(r, s)"),
+ ("C08__digest_len_unchecked", "secec/ecdsa.go", "\t\texpectedLen := hashFn.Size()\n\t\tif len(digest) != expectedLen {\n\t\t\treturn nil, errInvalidDigest\n\t\t}\n\t}\n\n\tr, s, v, err := k.SignRaw", "\t\texpectedLen := hashFn.Size()\n\t\tif len(digest) < expectedLen {\n\t\t\treturn nil, errInvalidDigest\n\t\t}\n\t}\n\n\tr, s, v, err := k.SignRaw"),
+ ("C08__recoverable_v_masked", "secec/ecdsa.go", "sig = BuildCompactRecoverableSignature(r, s, v)", "sig = BuildCompactRecoverableSignature(r, s, v&1)"),
+ ("C08__compact_order_swapped", "secec/s11n.go", "\tdst = append(dst, r.Bytes()...)\n\tdst = append(dst, s.Bytes()...)", "\tdst = append(dst, s.Bytes()...)\n\tdst = append(dst, r.Bytes()...)"),
+ ("C08__kinv_of_r", "secec/ecdsa.go", "kInv := secp256k1.NewScalar().Invert(k) //nolint:revive", "kInv := secp256k1.NewScalar().Invert(r) //nolint:revive"),
  ("C11__negE_dropped", "secec/ecdsa.go", "u1 := secp256k1.NewScalar().Multiply(negE, rInv)", "u1 := secp256k1.NewScalar().Multiply(e, rInv)"),
  ("C11__id_bound", "point_s11n.go", "if recoveryID >= 4 {", "if recoveryID > 4 {"),
  ("C11__s_zero_allowed", "secec/ecdsa.go", "if r.IsZero() != 0 || s.IsZero() != 0 {\n\t\treturn nil, errInvalidRorS\n\t}\n\n\t// This roughly", "if r.IsZero() != 0 {\n\t\treturn nil, errInvalidRorS\n\t}\n\n\t// This roughly"),
